@@ -179,8 +179,9 @@ class AABB:
         if b1.dim != b2.dim: 
             raise AABB.IncompatibleDimensionError(f"Bounding boxes have different dimensions ({b1.dim} and {b2.dim}): intersection impossible")
     
-        predicates = [b1.mini[i] <= b2.maxi[i] and b1.maxi[i] >= b2.mini[i] for i in range(b1.dim)]
-        return np.all(predicates)
+        # the boxes intersect iff their componentwise overlap has a non-negative extent in every dimension
+        # (an empty box, e.g. the intersection of two disjoint boxes, intersects nothing)
+        return bool(np.all(np.maximum(b1.mini, b2.mini) <= np.minimum(b1.maxi, b2.maxi)))
     
     @staticmethod
     def union(b1: "AABB", b2: "AABB") -> "AABB":
